@@ -8,26 +8,31 @@ package scalar
 //@ const R2N = 0x9d671cd581c69bc5e697f5e45bcd07c6741496c20e7cf878896cf21467d7d140
 
 //@ func cmovznzU64
+//@   props C06, C13
 //@   mode bv
 //@   requires arg1 <= 1
 //@   ensures sel: *out1 == ite(arg1 == 0, arg2, arg3)
 //@   modifies *out1
 
 //@ func Selectznz
+//@   props C06, C13
 //@   mode bv
 //@   requires c01: arg1 <= 1
 //@   ensures sel: forall(i, 0, 4, out1[i] == ite(arg1 == 0, old(arg2[i]), old(arg3[i])))
 //@   modifies *out1
 
 //@ func IsNonZero
+//@   props C06, C13
 //@   mode bv
 //@   ensures r: result == ite(u == 0, 0, 1)
 
 //@ func IsZero
+//@   props C06, C13
 //@   mode bv
 //@   ensures r: result == ite(u == 0, 1, 0)
 
 //@ func Reduce
+//@   props C06, C07, C18
 //@   mode bv
 //@   ensures flag: result == ite(old(eval(x)) < N, 1, 0)
 //@   ensures val: eval(x) == ite(old(eval(x)) < N, old(eval(x)), old(eval(x)) - N)
@@ -39,6 +44,7 @@ package scalar
 //@ lemma glue_sub_n(o, a, b) {lean: Secp.glue_sub}: imp(a < N && b < N && o == (a - b) % N, fromMn(o) == nsub(fromMn(a), fromMn(b)))
 
 //@ func Add
+//@   props C06
 //@   mode int
 //@   requires eval(arg1) < N && eval(arg2) < N
 //@   ensures val: eval(out1) == (old(eval(arg1)) + old(eval(arg2))) % N
@@ -47,6 +53,7 @@ package scalar
 //@   modifies *out1
 
 //@ func Sub
+//@   props C06
 //@   mode int
 //@   requires eval(arg1) < N && eval(arg2) < N
 //@   ensures val: eval(out1) == (old(eval(arg1)) - old(eval(arg2))) % N
@@ -55,6 +62,7 @@ package scalar
 //@   modifies *out1
 
 //@ func SetOne
+//@   props C06
 //@   mode int
 //@   ensures val: eval(out1) == R % N
 //@   derives fv: fromMn(eval(out1)) == Fn(1)
@@ -63,6 +71,7 @@ package scalar
 //@ lemma glue_mul_n(o, a, b) {lean: Secp.glue_mul}: imp(a < N && b < N && o < N && modeq(o * R, a * b, N), fromMn(o) == nmul(fromMn(a), fromMn(b)))
 
 //@ func Mul
+//@   props C06
 //@   mode staged
 //@   requires eval(arg1) < N && eval(arg2) < N
 //@   prelemma bound: old(eval(arg1)) * old(eval(arg2)) <= (N - 1) * (N - 1)
@@ -72,9 +81,10 @@ package scalar
 //@   modifies *out1
 
 //@ lemma glue_to_n(o, a) {lean: Secp.glue_to}: imp(a < N && o < N && modeq(o * R, a * R2N, N), fromMn(o) == nofint(a))
-//@ lemma glue_from_n(o, a) {lean: Secp.glue_from}: imp(a < N && o < N && modeq(o * R, a, N), fint(fromMn(a)) == o)
+//@ lemma glue_from_n(o, a) {lean: Secp.glue_from}: imp(a < N && 0 <= o && o < N && modeq(o * R, a, N), fint(fromMn(a)) == o)
 
 //@ func Square
+//@   props C06
 //@   mode staged
 //@   requires eval(arg1) < N
 //@   prelemma bound: old(eval(arg1)) * old(eval(arg1)) <= (N - 1) * (N - 1)
@@ -84,6 +94,7 @@ package scalar
 //@   modifies *out1
 
 //@ func FromMontgomery
+//@   props C06, C07, C14
 //@   mode staged
 //@   requires eval(arg1) < N
 //@   ensures mont: modeq(eval(out1) * R, old(eval(arg1)), N)
@@ -92,6 +103,7 @@ package scalar
 //@   modifies *out1
 
 //@ func ToMontgomery
+//@   props C06, C07, C18
 //@   mode staged
 //@   requires eval(arg1) < N
 //@   ensures mont: modeq(eval(out1) * R, old(eval(arg1)) * R2N, N)
@@ -101,8 +113,8 @@ package scalar
 
 // ---- scalar value layer: sv = fromMn(eval(limbs)) in Z_n ----
 //@ declare ninv(Fn) Fn
-//@ lemma glue_zero_n(x) {lean: Secp.glue_zero}: imp(x < N, (fromMn(x) == Fn(0)) == (x == 0))
-//@ lemma glue_inj_n(x, y) {lean: Secp.glue_inj}: imp(x < N && y < N, (fromMn(x) == fromMn(y)) == (x == y))
+//@ lemma glue_zero_n(x) {lean: Secp.glue_zero}: imp(0 <= x && x < N, (fromMn(x) == Fn(0)) == (x == 0))
+//@ lemma glue_inj_n(x, y) {lean: Secp.glue_inj}: imp(0 <= x && x < N && 0 <= y && y < N, (fromMn(x) == fromMn(y)) == (x == y))
 //@ lemma nofint_mod(x, y) {lean: Secp.fofint_mod}: imp((x - y) % N == 0, nofint(x) == nofint(y))
 //@ lemma nint_range(x) {lean: Secp.fint_range}: 0 <= fint(x) && fint(x) < N
 //@ lemma nofint_fint(x) {lean: Secp.fofint_fint}: imp(0 <= x && x < N, fint(nofint(x)) == x)
@@ -110,30 +122,35 @@ package scalar
 //@ lemma fermat_inv_n(x) {lean: Secp.fermat_inv}: npow(x, N - 2) == ninv(x)
 
 //@ func IsFEZero
+//@   props C06, C13, C18
 //@   mode int
 //@   requires eval(u) < N
 //@   ensures limbs: result == ite(eval(u) == 0, 1, 0)
 //@   derives z: result == ite(fromMn(eval(u)) == Fn(0), 1, 0) by glue_zero_n(eval(u))
 
 //@ func Equal
+//@   props C06, C13
 //@   mode int
 //@   requires eval(u) < N && eval(v) < N
 //@   ensures limbs: result == ite(eval(u) == eval(v), 1, 0)
 //@   derives eq: result == ite(fromMn(eval(u)) == fromMn(eval(v)), 1, 0) by glue_inj_n(eval(u), eval(v))
 
 //@ func CMove
+//@   props C06, C13
 //@   mode int
 //@   requires c01: c <= 1
 //@   ensures sel: forall(i, 0, 4, out[i] == ite(c == 0, old(u[i]), old(v[i])))
 //@   modifies *out
 
 //@ func ReduceBytes
+//@   props C06, C07
 //@   mode int
 //@   ensures flag: result == ite(os2ip(input) < N, 1, 0)
 //@   ensures v: eval(out) < N && fromMn(eval(out)) == nofint(os2ip(input)) by nofint_mod(os2ip(input), os2ip(input) - N)
 //@   modifies *out
 
 //@ func FromBytesNoReduce
+//@   props C06, C09
 //@   mode int
 //@   lens input 16,24
 //@   requires len(input) == 16 || len(input) == 24
@@ -141,11 +158,13 @@ package scalar
 //@   modifies *out
 
 //@ func HashToFieldElement
+//@   props C06, C09
 //@   mode int
 //@   ensures v: eval(out) < N && fromMn(eval(out)) == nofint(os2ip(input)) by nofint_wide(os2ip(input[24:48]), os2ip(input[0:24]), 0)
 //@   modifies *out
 
 //@ func scalar.Invert
+//@   props C06
 //@   mode pow
 //@   requires !same(s, x) && !same(s.s, x.s)
 //@   requires eval(x.s) < N
@@ -154,6 +173,7 @@ package scalar
 //@   returns s
 
 //@ func Invert
+//@   props C06
 //@   mode int
 //@   requires eval(in) < N
 //@   ensures inv: eval(out) < N && fromMn(eval(out)) == ninv(old(fromMn(eval(in)))) by fermat_inv_n(old(fromMn(eval(in))))
